@@ -466,7 +466,8 @@ def run(ctx):
         nn = sorted({int(np.isnan(v[s:e]).sum()) for s, e in groups(idx)} - {0})
         edge = [k + d for k in nn[:3] for d in (-1, 0, 1) if k + d >= 0] or [0]
         for op in range(4):
-            maxnan = [0, 1, 2, glen, 10 ** 6][int(rng.integers(0, 5))]
+            maxnan = [0, 1, 2, glen, 10 ** 6, 2 ** 31 - 1, 2 ** 31 - 2][
+                int(rng.integers(0, 7))]      # (... up to "no limit": the largest int32)
             if it % 2:
                 maxnan = edge[int(rng.integers(0, len(edge)))]
                 ctx.tag("maxnan:on-a-group-count")
@@ -476,7 +477,7 @@ def run(ctx):
             if it0 % 80 == 0 and n <= 10 and op == 2:
                 ctx.sample(case)
         run_flat_case(ctx, {"kind": "flat", "index": idx, "values": v,
-                            "maxnan": [0, 1, glen, 10 ** 6][int(rng.integers(0, 4))]
+                            "maxnan": [0, 1, glen, 10 ** 6, 2 ** 31 - 1][int(rng.integers(0, 5))]
                             if it % 2 == 0 else edge[int(rng.integers(0, len(edge)))]})
         if n >= 2:
             bad = idx.copy()
